@@ -229,6 +229,42 @@ def corpus():
     for k in _crash_points(scn, every=True):
         out.append({"scn": scn, "k": k})
     out.extend(_rampdown_corpus())
+    out.extend(_exotic_corpus())
+    return out
+
+
+def _exotic_corpus():
+    """fixed scenarios of the exotic stream: (1) three stations whose ids need every kind of JSON escape / are empty,
+    sessions whose ids look like a number, a JSON object, `null`, the model's own tags; numpy scalars as EV
+    fields; inf requested energy / battery capacity / constraint limit; TWO or THREE stations occupied at the crash
+    points (sharing must hold for every one of them, also after the second save/load); (2) the same layout with
+    session ids that ARE registry ids (the EV's own id(), its battery's, the network's) — oracle only"""
+    def st(i, kind, v=208):
+        return {"id": i, "kind": kind, "V": v, "phase": 0}
+    cont = {"t": "cont", "min": 0, "max": 32}
+    two = {"two": True, "cap": 60.5, "init": 30.0, "maxp": 6.6, "noise": 0.5, "ts": 0.8, "calc": "continuous"}
+    ids = ['a"b\\c\n', '', '\u65e5\u672c\U0001F600\x00\x7f']
+    scn = {"stations": [st(ids[0], {"t": "finite", "rates": [0, 8, 16, 24, 32]}), st(ids[1], {"t": "deadband", "db": 6, "max": 32}, 240),
+                        st(ids[2], dict(cont, max="inf"), 277.5)],
+           "constraint": {"limit": "inf", "name": 'lim "\u00e9"\t'},
+           "sessions": [dict(_s("123", ids[0], 0, 5, 4.0, two), np={"arrival": "int64", "departure": "uint8", "requested": "float32"}),
+                        dict(_s('{"k": 1}', ids[1], 1, 6, "inf"), est=7, np={"arrival": "int32", "est": "int16"}),
+                        dict(_s("null", ids[2], 1, 4, 7.300000190734863, {"two": False, "cap": "inf", "init": 5, "maxp": 7}),
+                             np={"requested": "float32", "departure": "int64"}),
+                        dict(_s("s:i:5", ids[2], 4, 7, 0.5), np={"arrival": "uint32"}),
+                        _s("-", ids[0], 5, 8, 2.0)],
+           "recomputes": [2, 2, 9], "period": 5, "period_np": "int64", "max_recompute": 2, "noise": [0.3, -0.2, 1.1],
+           "sched": {"type": "scripted", "default": [[ids[0], [16.0]], [ids[1], [8.0]], [ids[2], [12.5]]],
+                     "script": [{"t": 1, "sched": [[ids[0], [24.0, 8.0]], [ids[1], [6.0, 32.0]], [ids[2], [40.0, 3.0]]]},
+                                {"t": 4, "sched": [[ids[1], [10.0, 0.0, 20.0]]]}]},
+           "exotic": True}
+    out = [{"scn": scn, "k": k} for k in _crash_points(scn, every=True)]
+    al = copy.deepcopy(scn)
+    for s_, a_ in zip(al["sessions"], ("self", "battery", "network", None, "sim")):
+        if a_:
+            s_["alias"] = a_
+    al["no_model"] = True
+    out += [{"scn": al, "k": k} for k in (1, 2, 4, 5)]
     return out
 
 
